@@ -21,6 +21,10 @@ WITNESSES = [
     ["int", 7],
     ["userobj", "Plain", [["a", ["ndarray", "<i4", [2], "C", 3, False]]]],
     ["dict", [[["int", 1], ["bytes", "78"]], [["str", "1"], ["bytes", "79"]]]],      # finding C12-F1: the first member is written but no node refers to it
+    # arrays with the same bytes and dtype but different shape / layout / scalar-ness are different members
+    ["list", [["ndarray", "<f8", [2, 3], "C", 5, False], ["ndarray", "<f8", [6], "C", 5, False], ["ndarray", "<f8", [6, 1], "C", 5, False],
+              ["ndarray", "<f8", [3, 2], "F", 5, False], ["ndarray", "<i8", [1], "C", 7, False], ["npscalar", "<i8", 7]]],
+    ["tuple", [["ndarray", "|u1", [4], "C", 2, False], ["ndarray", "|u1", [2, 2], "C", 2, False], ["ndarray", "|b1", [0], "C", 2, False], ["ndarray", "<f4", [0], "C", 2, False]]],
 ]
 
 
